@@ -14,6 +14,7 @@ import z3
 from . import engine as E
 from . import loader, models, spec
 from . import symre  # noqa: registers regex / fnmatch models
+from . import dates  # noqa: registers datetime models
 from .engine import Unmodelled, UnwindExceeded, PathAbort
 from .harness import REGISTRY, Env, Raised, for_property
 from .values import SymInt, SymBool, SymFloat, SymStr, zbool
